@@ -14,7 +14,7 @@ func init() {
 	register(&propDef{
 		ID: "C16",
 		Meta: propMeta{
-			Explanation: "Decides the structural mechanisms that make re-encoding lossless: (R16a) type shape — ContentInfo and SignerInfo capture their original encoding in a leading asn1.RawContent field, certificates, attribute values and issuer names are asn1.RawValue, marshalCertificates fills FullBytes from cert.Raw (removing any of these makes encoding/asn1 re-encode signed parts); (R16b) signed attributes are digested in the encoding that is emitted: the verifier hashes AuthenticatedAttributesBytes(), which returns the re-marshalled list only when no raw content was captured and otherwise re-tags the original bytes; the builder hashes and emits the same attribute list; (R16c) content-type and message-digest are added exactly once, only by SignatureBuilder.Sign under `authAttrs != nil`, with the builder's content type and digest; no other code adds those OIDs; no function calls Sign() twice on one builder or in a loop; (R16d) every SignatureBuilder.Sign result flows into pkcs9.TimestampAndMarshal, which self-checks (SignedData.Verify + VerifyOptionalTimestamp) before marshalling and returns the marshalled bytes of that same structure; (R16e) in lib/pkcs7 and lib/pkcs9 no failure branch of asn1.Marshal/Unmarshal reaches a nil-error return (one unreachable site noted); (R16f) Detach replaces the content by a content-less ContentInfo of the same type.",
+			Explanation: "Decides the structural mechanisms that make re-encoding lossless: (R16a) type shape — ContentInfo and SignerInfo capture their original encoding in a leading asn1.RawContent field, certificates, attribute values and issuer names are asn1.RawValue, marshalCertificates fills FullBytes from cert.Raw (removing any of these makes encoding/asn1 re-encode signed parts); (R16b) signed attributes are digested in the encoding that is emitted: the verifier hashes AuthenticatedAttributesBytes(), which returns the re-marshalled list only when no raw content was captured and otherwise re-tags the original bytes; the builder hashes and emits the same attribute list; (R16c) content-type and message-digest are added exactly once, only by SignatureBuilder.Sign under `authAttrs != nil`, with the builder's content type and digest; no other code adds those OIDs; no function calls Sign() twice on one builder or in a loop; (R16d) every SignatureBuilder.Sign result flows into pkcs9.TimestampAndMarshal, which self-checks (SignedData.Verify + VerifyOptionalTimestamp) before marshalling and returns the marshalled bytes of that same structure; (R16e) in lib/pkcs7 and lib/pkcs9 no failure branch of asn1.Marshal/Unmarshal reaches a nil-error return (one unreachable site noted); (R16f) Detach replaces the content by a content-less ContentInfo of the same type. (R16h) SignedData.CRLs keeps each CRL's signed part raw (asn1.RawValue or a tbsCertList with a leading RawContent); NewContentInfo records the content type it was asked for on every path; no parsed structure that is returned aliases a buffer that goes back into a sync.Pool.",
 			NotDecided:  "byte identity of Marshal(Unmarshal(x)) on concrete values (a property of encoding/asn1 on data), BER quirks of third-party tokens.",
 			Assumptions: []string{"encoding/asn1 writes RawContent / RawValue.FullBytes verbatim"},
 		},
@@ -569,4 +569,82 @@ func runC16(c *Ctx) {
 		}
 		c.Check(ok, "R16f", p.FName(fn)+" keeps the content type", p.Pos(fn.Pos()), "NewContentInfo(old ContentType, nil)", "Detach does not rebuild the ContentInfo with the same content type and no content")
 	}
+	c16Round2(c)
+}
+
+// ------------------------------------------------------------------------------ R16h
+
+// c16Round2: (a) CRLs carried in a SignedData keep the signed part of each CRL raw; (b)
+// NewContentInfo records the content type it was asked for on every path; (c) bytes that were
+// parsed into a returned structure are not in a pooled buffer (encoding/asn1 keeps RawContent /
+// RawValue / FullBytes as sub-slices of its input).
+func c16Round2(c *Ctx) {
+	p := c.P
+	c.Rule("R16h", "embedded CRLs keep their signed bytes raw; NewContentInfo records the requested type on every path; parsed structures do not alias pooled buffers", 2)
+	// (a)
+	if pk := p.Pkg("lib/pkcs7"); pk != nil {
+		ok := false
+		detail := "field not found"
+		if tn, isT := pk.Types.Scope().Lookup("SignedData").(*types.TypeName); isT {
+			if st, isS := tn.Type().Underlying().(*types.Struct); isS {
+				for i := 0; i < st.NumFields(); i++ {
+					if st.Field(i).Name() != "CRLs" {
+						continue
+					}
+					ft := st.Field(i).Type()
+					detail = ft.String()
+					if sl, isSl := ft.Underlying().(*types.Slice); isSl {
+						el := sl.Elem()
+						if el.String() == "encoding/asn1.RawValue" {
+							ok = true
+						} else if es, isES := el.Underlying().(*types.Struct); isES {
+							for j := 0; j < es.NumFields(); j++ {
+								if es.Field(j).Name() != "TBSCertList" {
+									continue
+								}
+								if ts, isTS := es.Field(j).Type().Underlying().(*types.Struct); isTS && ts.NumFields() > 0 && ts.Field(0).Type().String() == "encoding/asn1.RawContent" {
+									ok = true
+								}
+							}
+						}
+					}
+				}
+			}
+		}
+		c.Check(ok, "R16h", "SignedData.CRLs keeps the signed part of a CRL raw", "-", detail, "SignedData.CRLs is declared as "+detail+", whose tbsCertList has no leading asn1.RawContent member: a CRL carried in a signature or timestamp token is re-encoded from parsed fields when the structure is marshalled again, and the CA's signature over it no longer verifies")
+	}
+	// (b)
+	if fn := p.Func("lib/pkcs7.NewContentInfo"); fn == nil {
+		c.Undecided("R16h", "NewContentInfo", "-", "function not found")
+	} else {
+		c.Analysed(p.FName(fn))
+		var ctParam *ssa.Parameter
+		for _, pa := range fn.Params {
+			if pa.Name() == "contentType" {
+				ctParam = pa
+			}
+		}
+		ok := ctParam != nil
+		n := 0
+		for _, b := range fn.Blocks {
+			for _, in := range b.Instrs {
+				st, isSt := in.(*ssa.Store)
+				if !isSt {
+					continue
+				}
+				if tn, f, _ := p.fieldAddr(st.Addr); strings.HasSuffix(tn, "pkcs7.ContentInfo") && f == "ContentType" {
+					n++
+					if st.Val != ssa.Value(ctParam) {
+						ok = false
+					}
+				}
+			}
+		}
+		c.Check(ok && n >= 1, "R16h", "NewContentInfo records the requested content type", p.Pos(fn.Pos()), fmt.Sprintf("%d stores, all of the parameter", n), "NewContentInfo can return a ContentInfo whose ContentType is not the type it was asked for: after Detach() the eContentType no longer matches the signed content-type attribute")
+	}
+	// (c)
+	for _, f := range poolEscapes(p) {
+		c.Check(f.OK, "R16h", f.Key, f.Pos, "", f.Detail)
+	}
+	c.runControl("R16h pooled memory also returned", "hasher).release", poolEscapes)
 }
